@@ -280,6 +280,8 @@ func SpecMatch(pattern string, hasWild bool, s string) bool {
 //@   ensures[C09] !subscribe ==> result1 == nil
 //@   ensures[C09] result1 != nil ==> (forall e *EventSubscription :: !fresh(e) ==> e.count == old(e.count))
 //@   ensures[C09] result1 != nil && !old(has(c.eventSubs, name)) ==> has(c.eventSubs, name) && c.eventSubs[name].count == 0
+// (an entry left without a user by a failed subscribe is queued for eviction like any other)
+//@   ensures[C09] result1 != nil && has(c.eventSubs, name) && c.eventSubs[name].count == 0 ==> callcount("Add") == old(callcount("Add")) + 1
 //@   ensures[C09] forall n string :: n != name ==> has(c.eventSubs, n) == old(has(c.eventSubs, n)) && c.eventSubs[n] == old(c.eventSubs[n])
 //@   ensures predCacheOK(c)
 //@   assert[C14] c.mq.Subscribe#1: arg0 == "event." + name
